@@ -60,6 +60,9 @@ var tCfg = []cfgRow{
 	{"validateCircuitBreaker", "CircuitBreakerConfig.Enabled", cfgP + "CircuitBreakerConfig.SuccessThreshold", "", 1, posInf, false, "", "circuit_breaker.success_threshold"},
 	{"validateCircuitBreaker", "CircuitBreakerConfig.Enabled", cfgP + "CircuitBreakerConfig.TimeoutSeconds", "", 1, posInf, false, "", "circuit_breaker.timeout_seconds"},
 	{"validateCircuitBreaker", "CircuitBreakerConfig.Enabled", cfgP + "CircuitBreakerConfig.IntervalSeconds", "", 1, posInf, false, "", "circuit_breaker.interval_seconds"},
+	// max_requests: 0 means "default 1"; the balancer converts the value to uint32 under the stated
+	// belief "config validated to be non-negative" — a negative value would wrap to ~4.29e9 trials
+	{"validateCircuitBreaker", "CircuitBreakerConfig.Enabled", cfgP + "CircuitBreakerConfig.MaxRequests", "", 0, posInf, false, "", "circuit_breaker.max_requests"},
 	{"validateMetrics", "MetricsConfig.Enabled", cfgP + "MetricsConfig.Port", "", 1, 65535, false, "", "metrics.port"},
 	{"validateMetrics", "MetricsConfig.Enabled", cfgP + "MetricsConfig.Path", `k:""`, 0, 0, true, "", ""},
 	{"validateAdminAPI", "AdminAPIConfig.Enabled", cfgP + "AdminAPIConfig.Port", "", 1, 65535, false, "", "admin_api.port"},
@@ -662,6 +665,67 @@ func checkC18(c *Ctx) {
 		}
 		c.Floor("option-value-used", len(lookups), 1, "option look-ups in "+fnName)
 	}
+
+	// 4c. documented defaults: the README presents gzip's level and min_size with "default: 5" and
+	//      "default: 1024" — a chain entry that leaves them out is a documented form and has to be
+	//      accepted, with those values.  The option parser's result for each therefore has the
+	//      documented constant among its origins (the value used when the key is absent).
+	if pg := c.gzipOptionParser(); pg != nil {
+		readme, _ := os.ReadFile(filepath.Join(p.RepoDir, "README.md"))
+		for _, d := range []struct {
+			key    string
+			result int
+			def    int64
+			doc    string
+		}{{"level", 0, 5, "default: 5"}, {"min_size", 1, 1024, "default: 1024"}} {
+			construct := "plugins.parseGzipConfig/" + d.key + "-default"
+			if !strings.Contains(string(readme), d.doc) {
+				c.Pass("documented-defaults-honoured", construct, "-", "README.md no longer documents \""+d.doc+"\" for gzip: nothing to honour")
+				continue
+			}
+			found := false
+			instrsOf(pg, func(in ssa.Instruction) {
+				r, ok := in.(*ssa.Return)
+				if !ok || len(r.Results) <= d.result || !isConstNil(r.Results[len(r.Results)-1]) {
+					return
+				}
+				seen := map[ssa.Value]bool{}
+				var walk func(v ssa.Value, depth int)
+				walk = func(v ssa.Value, depth int) {
+					if v == nil || seen[v] || depth > 8 {
+						return
+					}
+					seen[v] = true
+					switch x := v.(type) {
+					case *ssa.Const:
+						if k, ok := constInt(x); ok && k == d.def {
+							found = true
+						}
+					case *ssa.Phi:
+						for _, e := range x.Edges {
+							walk(e, depth+1)
+						}
+					case *ssa.Convert:
+						walk(x.X, depth+1)
+					case *ssa.UnOp:
+						if a, ok := x.X.(*ssa.Alloc); ok && a.Referrers() != nil {
+							for _, rr := range *a.Referrers() {
+								if st, ok := rr.(*ssa.Store); ok && st.Addr == ssa.Value(a) {
+									walk(st.Val, depth+1)
+								}
+							}
+						}
+					}
+				}
+				walk(r.Results[d.result], 0)
+			})
+			c.Check(found, "documented-defaults-honoured", construct, p.Pos(pg.Pos()), fmt.Sprintf("an omitted %s falls back to the documented %d", d.key, d.def),
+				fmt.Sprintf("README.md documents gzip's %s with \"%s\", but the option parser has no path that yields %d: a chain entry that relies on the documented default is refused at start-up (\"expected %s for gzip config\")", d.key, d.doc, d.def, d.key))
+		}
+	}
+
+	// 4d. a backend address the proxy cannot use makes start-up fail (NewLoadBalancer → AddBackend)
+	c.backendAddressUsable()
 
 	// 5. shipped files
 	registered := map[string]bool{}
